@@ -11,7 +11,9 @@ FIX_COMMITS = ["d6ae502 (passive start-up cancellation: port/listener leak)",
                "b5dacba (STOR/APPE on the virtual root probed the parent of the base directory)",
                "1ca8d1a (double quotes in directory names mangled by PWD / its parser)",
                "4e53b5c (Client.upload ignored leading destination components for directories)",
-               "9d69568 (Client.list KeyError on an MLSD entry without a type fact)"]
+               "9d69568 (Client.list KeyError on an MLSD entry without a type fact)",
+               "0058bea (REST offset survived a refused transfer command)",
+               "b2387d7 (undecodable PASS line leaked a password byte to the logs)"]
 
 ENV_NOTE = ("Trusted base: the environment model (vf/simloop.py: selector, TCP, clock, executor) and the harness-side "
             "oracles; the code explored is the unmodified aioftp imported from /repo/src. Bounds are stated in the "
